@@ -8,6 +8,17 @@ import (
 	"github.com/boombuler/barcode/utils"
 )
 
+// isDigits reports whether s consists of the characters 0-9 only (strconv.Atoi also
+// accepts a leading sign).
+func isDigits(s string) bool {
+	for i := 0; i < len(s); i++ {
+		if s[i] < '0' || s[i] > '9' {
+			return false
+		}
+	}
+	return true
+}
+
 func encodeNumeric(content string, ecl ErrorCorrectionLevel) (*utils.BitList, *versionInfo, error) {
 	contentBitCount := (len(content) / 3) * 10
 	switch len(content) % 3 {
@@ -33,7 +44,7 @@ func encodeNumeric(content string, ecl ErrorCorrectionLevel) (*utils.BitList, *v
 		}
 
 		i, err := strconv.Atoi(curStr)
-		if err != nil || i < 0 {
+		if err != nil || i < 0 || !isDigits(curStr) {
 			return nil, nil, fmt.Errorf("\"%s\" can not be encoded as %s", content, Numeric)
 		}
 		var bitCnt byte
